@@ -919,7 +919,7 @@ def gen_timed_fake(rng):
             g.ev(b)
     for _ in range(r.below(3)):
         t = r.choice([0.0, 0.25, 0.5, 0.999, 1.0, 1.0000000000000002, 0.9999999999999999, 2.0, 5.0, 9.99, 10.0, 10.01, 50.0,
-                      3600.0, -1.0, round(r.uniform(0.0, 20.0), 3)])
+                      3600.0, -1.0, round(r.uniform(0.0, 20.0), 3), 1e10, float("inf"), 1.7976931348623157e308])
         g.add("solve " + fb(t))
     return g.lines
 
